@@ -604,6 +604,20 @@ func factsC09() {
 		}
 		boolFact(g, "recover_"+fnm, ok, fnm+": first statement is defer func(){ if r := recover(); r != nil { err = … } }() and err is a named result")
 	}
+	// parseExtensions is only ever called from parseClientHello (whose own guard then also covers it)
+	only := true
+	ncall := 0
+	for name, fn := range p.funcs {
+		if fn.Body == nil {
+			continue
+		}
+		k := len(allCalls(fn.Body, `^parseExtensions$`))
+		ncall += k
+		if k > 0 && name != "parseClientHello" {
+			only = false
+		}
+	}
+	boolFact(g, "parseExtensionsOnlyUnderParseClientHello", only && ncall > 0, "every call of parseExtensions sits in parseClientHello")
 }
 
 func unquote(s string) (string, error) {
